@@ -294,4 +294,129 @@ theorem partitionColon_name (name s : Str) (h : ':' ∉ name) :
     have hc : (c == ':') = false := by simpa using fun e => h.1 e.symm
     simp [partitionColon, hc, ih h.2 (c :: acc)]
 
+/-! ### the sanitized query read back (`parse_qs` of `urlencode`) -/
+
+def keysOf (d : List (Str × List Str)) : List Str := d.map (·.1)
+
+/-- well-formed multi-map: distinct keys, no empty value list -/
+def WF : List (Str × List Str) → Prop
+  | [] => True
+  | (k, vs) :: rest => vs ≠ [] ∧ k ∉ keysOf rest ∧ WF rest
+
+theorem qsInsert_fresh (k v : Str) : ∀ acc : List (Str × List Str), k ∉ keysOf acc → qsInsert k v acc = acc ++ [(k, [v])]
+  | [], _ => rfl
+  | (k', vs) :: rest, h => by
+    simp only [keysOf, List.map_cons, List.mem_cons, not_or] at h
+    have hk : (k == k') = false := by simpa using h.1
+    simp [qsInsert, hk, qsInsert_fresh k v rest (by simpa [keysOf] using h.2)]
+
+theorem qsInsert_last (k v : Str) (ws : List Str) : ∀ acc : List (Str × List Str), k ∉ keysOf acc →
+    qsInsert k v (acc ++ [(k, ws)]) = acc ++ [(k, ws ++ [v])]
+  | [], _ => by simp [qsInsert]
+  | (k', vs) :: rest, h => by
+    simp only [keysOf, List.map_cons, List.mem_cons, not_or] at h
+    have hk : (k == k') = false := by simpa using h.1
+    simp [qsInsert, hk, qsInsert_last k v ws rest (by simpa [keysOf] using h.2)]
+
+theorem foldl_values (k : Str) (acc : List (Str × List Str)) (hk : k ∉ keysOf acc) :
+    ∀ (vs ws : List Str), (vs.map fun v => (k, v)).foldl (fun a (kv : Str × Str) => qsInsert kv.1 kv.2 a) (acc ++ [(k, ws)])
+      = acc ++ [(k, ws ++ vs)]
+  | [], ws => by simp
+  | v :: vs, ws => by
+    simp only [List.map_cons, List.foldl_cons, qsInsert_last k v ws acc hk]
+    rw [foldl_values k acc hk vs (ws ++ [v])]
+    simp
+
+theorem foldl_flatten : ∀ (d acc : List (Str × List Str)), WF d → (∀ k ∈ keysOf d, k ∉ keysOf acc) →
+    (flattenQs d).foldl (fun a (kv : Str × Str) => qsInsert kv.1 kv.2 a) acc = acc ++ d
+  | [], acc, _, _ => by simp [flattenQs]
+  | (k, vs) :: rest, acc, hwf, hdis => by
+    obtain ⟨hne, hk, hrest⟩ := hwf
+    have hka : k ∉ keysOf acc := hdis k (by simp [keysOf])
+    cases vs with
+    | nil => exact absurd rfl hne
+    | cons v vs =>
+      have : flattenQs ((k, v :: vs) :: rest) = (k, v) :: ((vs.map fun x => (k, x)) ++ flattenQs rest) := by
+        simp [flattenQs]
+      rw [this, List.foldl_cons, List.foldl_append]
+      simp only
+      rw [qsInsert_fresh k v acc hka, foldl_values k acc hka vs [v]]
+      rw [foldl_flatten rest (acc ++ [(k, [v] ++ vs)]) hrest]
+      · simp
+      · intro k' hk' hmem
+        simp only [keysOf, List.map_append, List.map_cons, List.map_nil, List.mem_append, List.mem_singleton] at hmem
+        rcases hmem with hmem | hmem
+        · exact hdis k' (by simp [keysOf] at hk' ⊢; exact Or.inr hk') (by simpa [keysOf] using hmem)
+        · subst hmem; exact hk hk'
+
+theorem parseQs_flatten (d : List (Str × List Str)) (h : WF d) : parseQs (flattenQs d) = d := by
+  unfold parseQs
+  have := foldl_flatten d [] h (by simp [keysOf])
+  simpa using this
+
+theorem keysOf_qsInsert (k v : Str) : ∀ acc : List (Str × List Str),
+    keysOf (qsInsert k v acc) = if k ∈ keysOf acc then keysOf acc else keysOf acc ++ [k]
+  | [] => by simp [qsInsert, keysOf]
+  | (k', vs) :: rest => by
+    have ih := keysOf_qsInsert k v rest
+    by_cases hk : k = k'
+    · subst hk; simp [qsInsert, keysOf]
+    · have hk' : (k == k') = false := by simpa using hk
+      simp only [qsInsert, hk', Bool.false_eq_true, if_false, keysOf, List.map_cons, List.mem_cons, hk, false_or] at ih ⊢
+      rw [ih]
+      by_cases hm : k ∈ List.map (fun x => x.fst) rest <;> simp [hm]
+
+theorem qsInsert_wf (k v : Str) : ∀ acc : List (Str × List Str), WF acc → WF (qsInsert k v acc)
+  | [], _ => by simp [qsInsert, WF, keysOf]
+  | (k', vs) :: rest, h => by
+    obtain ⟨hne, hk', hrest⟩ := h
+    by_cases hk : k = k'
+    · subst hk
+      simp only [qsInsert, beq_self_eq_true, if_true, WF]
+      exact ⟨by simp, hk', hrest⟩
+    · have hkb : (k == k') = false := by simpa using hk
+      simp only [qsInsert, hkb, Bool.false_eq_true, if_false, WF]
+      refine ⟨hne, ?_, qsInsert_wf k v rest hrest⟩
+      rw [keysOf_qsInsert]
+      split
+      · exact hk'
+      · simp only [List.mem_append, List.mem_singleton, not_or]
+        exact ⟨hk', fun e => hk e.symm⟩
+
+theorem parseQs_wf (q : List (Str × Str)) : WF (parseQs q) := by
+  unfold parseQs
+  have : ∀ (q : List (Str × Str)) (acc : List (Str × List Str)), WF acc →
+      WF (q.foldl (fun a (kv : Str × Str) => qsInsert kv.1 kv.2 a) acc) := by
+    intro q
+    induction q with
+    | nil => intro acc h; simpa using h
+    | cons p q ih => intro acc h; simp only [List.foldl_cons]; exact ih _ (qsInsert_wf p.1 p.2 acc h)
+  exact this q [] (by simp [WF])
+
+theorem sanMulti_wf (cfg : Config) : ∀ d, WF d → WF (sanMulti cfg d)
+  | [], _ => by simp [sanMulti, WF]
+  | (k, vs) :: rest, h => by
+    obtain ⟨hne, hk, hrest⟩ := h
+    rw [sanMulti_cons]
+    refine ⟨?_, ?_, sanMulti_wf cfg rest hrest⟩
+    · split <;> simp [hne]
+    · have : keysOf (sanMulti cfg rest) = keysOf rest := by
+        simp [keysOf, sanMulti, Function.comp_def]
+      rw [this]; exact hk
+
+theorem okMulti_sanMulti (cfg : Config) : ∀ d, okMulti cfg d (sanMulti cfg d) = true
+  | [] => rfl
+  | (k, vs) :: rest => by
+    rw [sanMulti_cons]
+    simp only [okMulti, okMulti_sanMulti cfg rest, sensitiveB_eq, beq_self_eq_true, Bool.true_and, Bool.and_true]
+    by_cases hs : isSensitive cfg k = true <;> simp [hs]
+
+theorem sanitizeUrl_ok (cfg : Config) (u : Url) : okUrl cfg u (sanitizeUrl cfg u) = true := by
+  have hn : okNetloc cfg u.netloc (sanNetloc cfg u.netloc) = true := by
+    unfold okNetloc; rw [sanNetloc_spec]
+    by_cases h : hasUserinfo u.netloc = true <;> simp [h]
+  simp only [okUrl, sanitizeUrl, beq_self_eq_true, Bool.true_and, hn,
+    parseQs_flatten _ (sanMulti_wf cfg _ (parseQs_wf u.query)), okMulti_sanMulti]
+
 end SV.Proofs.C15
+
